@@ -366,6 +366,8 @@ def run_specs(op):
                         if isinstance(e, procs.Budget):
                             raise
                         out[-1]["get_subblocks_exc"] = "%s: %s" % (type(e).__name__, str(e)[:200])
+                if op.get("rebuild_probe"):
+                    out[-1]["rebuild_probe"] = _rebuild_probe(g, pa, b, subs)
             except BaseException as e:
                 if isinstance(e, procs.Budget):
                     raise
@@ -373,6 +375,49 @@ def run_specs(op):
     finally:
         sys.stdout, sys.stderr = old_out, old_err
     return out
+
+
+def _rebuild_probe(g, pa, b, subs):
+    """The real rebuild_optimized_asm_block driven with replacements chosen by the harness (what a back-end or a log could
+    hand it): nothing replaced, and for every sub-block k the empty sequence, a copy of the split instruction that follows /
+    precedes it, its own instructions, and a neutral pair; also two neighbours replaced by the empty sequence."""
+    import copy
+    m = len(subs)
+    name = b.block_name
+
+    def instrs_of(plain_list):
+        if not plain_list:
+            return []
+        blk = pa.parse_blocks_from_plain_instructions(" ".join(plain_list), "c", "r")
+        return [i for x in blk for i in x.instructions]
+    plans = [{}]
+    for k in range(m):
+        inner = list(subs[k])[(1 if k > 0 else 0):(len(subs[k]) - 1 if k < m - 1 else len(subs[k]))]
+        cands = [[], inner, ["PUSH 1", "POP"]]
+        if k < m - 1:
+            cands.append([subs[k][-1]])
+            cands.append(["PUSH 1", "POP", subs[k][-1]])
+        if k > 0:
+            cands.append([subs[k][0]])
+        for c in cands:
+            plans.append({k: c})
+        if k < m - 1:
+            plans.append({k: [], k + 1: []})
+    recs = []
+    for plan in plans[:80]:
+        rec = {"block": name, "instrs": [(i.disasm, i.value) for i in b.instructions], "sub_block_list": [list(s) for s in subs]}
+        try:
+            optimized = {"%s_%d" % (name, k): instrs_of(c) for k, c in plan.items()}
+            rec["optimized"] = {k: [(i.disasm, i.value) for i in v] for k, v in optimized.items()}
+            new = g.rebuild_optimized_asm_block(copy.deepcopy(b), copy.deepcopy(subs), optimized)
+            rec["result"] = [(i.disasm, i.value) for i in new.instructions]
+        except BaseException as e:
+            if isinstance(e, procs.Budget):
+                raise
+            rec.setdefault("optimized", {})
+            rec["exc"] = "%s: %s" % (type(e).__name__, str(e)[:200])
+        recs.append(rec)
+    return recs
 
 
 def run_solve(op):
